@@ -1,6 +1,7 @@
 """C20 - Failures of the external XML-security tool never turn into acceptance."""
 import ast
 
+from ..match import facts, Q
 from ..srcmodel import attr_chain, call_name, unparse, norm_text, walk_no_nested
 from ..cfg import cfg_of, raised_class
 from ..dataflow import Origins
@@ -38,9 +39,9 @@ def r1_run_xmlsec(run):
     vcalls = [nd for nd, c in cfg.call_nodes("parse_xmlsec_output")]
     ok = len(vcalls) == 1
     if ok:
-        gs = {(unparse(e), p) for e, p, _ in cfg.guards(vcalls[0].id)}
-        ok = gs == {("validate_output", True)} or \
-            ("validate_output", True) in gs and len(gs) <= 2
+        gs = facts(cfg, vcalls[0].id)
+        ok = gs == {Q("validate_output", True)} or \
+            Q("validate_output", True) in gs and len(gs) <= 2
         c = [c for nd, c in cfg.call_nodes("parse_xmlsec_output")][0]
         ok = ok and unparse(c.args[0]) == "p_err"
     run.check(ok, "R1", fi.qual + "::validates-stderr",
@@ -161,8 +162,8 @@ def r2_parse_output(run):
               fi.qual + "::no-OK=>raise", "no OK line raises XmlsecError",
               "a report without an OK line no longer raises", fi.loc())
     fails = [r for r in cfg.by_kind("raise")
-             if ("line == 'FAIL'", True) in
-             {(unparse(e), p) for e, p, _ in cfg.guards(r.id)}]
+             if Q("line == 'FAIL'", True) in
+             facts(cfg, r.id)]
     run.check(bool(fails), "R2", fi.qual + "::FAIL=>raise",
               "a FAIL line raises", "a FAIL line no longer raises", fi.loc(),
               nontrivial=False)
@@ -220,8 +221,8 @@ def r5_no_result_raises(run):
     rets = cfg.by_kind("return")
     ok = bool(rets)
     for r in rets:
-        gs = {(unparse(e), p) for e, p, _ in cfg.guards(r.id)}
-        ok = ok and ("signed_statement", True) in gs and \
+        gs = facts(cfg, r.id)
+        ok = ok and Q("signed_statement", True) in gs and \
             "signed_statement" in unparse(r.ast.value)
     run.check(ok, "R5", fi.qual + "::returns-only-output",
               "returns the signed text only when there is one",
